@@ -211,3 +211,24 @@ def short(b, n=24):
     if len(b) <= n:
         return b.hex()
     return "%s..(%d bytes)" % (b[:8].hex(), len(b))
+
+
+def corpus(s, seed, pw=b"correct horse", cred=b"user-1", ctx=None, id_u=None, id_s=None, tag="c"):
+    """One honest registration + login; returns {kind: valid native encoding (bytes)} for the 11
+    decoders, plus the flows. Handles: <tag>S setup, <tag>g.* registration, <tag>l.* login."""
+    rng = s.rng(tag + "rng", seed)
+    st = s.cmd("setup_new", rng=rng, out=tag + "S")
+    reg = register(s, rng, tag + "S", pw, cred, id_u=id_u, id_s=id_s, wire=False, tag=tag + "g")
+    lg = login(s, rng, rng, tag + "S", reg.file_h, pw, cred, ctx_c=ctx, ctx_s=ctx, id_u_c=id_u, id_s_c=id_s, id_u_s=id_u,
+               id_s_s=id_s, wire=False, tag=tag + "l")
+    if not (st.ok and reg.ok and lg.ok):
+        return None, st, reg, lg
+    c = {
+        "setup": st.ser, "rreq": reg.rreq, "rresp": reg.rresp, "rupl": reg.rupl, "file": reg.file,
+        "creg": reg.creg_state, "creq": lg.creq, "cresp": lg.cresp, "cfin": lg.cfin, "clogin": lg.clogin_state,
+        "slogin": lg.slogin_state,
+    }
+    return {k: bytes.fromhex(v) for k, v in c.items()}, st, reg, lg
+
+
+KINDS11 = ["rreq", "rresp", "rupl", "creq", "cresp", "cfin", "file", "setup", "creg", "clogin", "slogin"]
